@@ -24,6 +24,8 @@ Layer B (drivers, on results of real calls):
   file_replaced         file input uses a small pool of REUSED paths rewritten by the independent writer; in every case an
                         operation on path P is followed - with no other file load in between - by replacing P (other stack of the
                         same shape / another shape / the other dtype) and a second operation on P, which must act on what P holds now
+  mutated_history       three calls on the SAME caller-owned stack / angle / index / axes objects, which the caller modifies in
+                        place between the calls: each result is the selection from the values the objects hold at that moment
   flip_twice            flipping along an axis, then again (second call fed with the returned array in its declared
                         order, or with the MRC file the first call wrote), restores the input
 """
@@ -62,7 +64,7 @@ ASSUMPTIONS = [
 
 CLASSES = ["f32_random", "i16_random", "n2", "n25", "wide_4xW", "tall_Hx4", "odd_sizes", "square", "i16_extremes", "f32_extremes",
            "strided_views", "all_file_io", "angles_hostile", "remove_single", "remove_all_but_one", "remove_ends", "idx_files",
-           "crop_parity", "bin_edges", "multi_flip"]
+           "crop_parity", "bin_edges", "multi_flip", "bin_integer_means", "pow2_sizes", "max_sizes", "f32_limits", "duplicate_tilts"]
 OPS = ["sort", "remove", "split", "flip", "crop", "bin"]
 FN = {"sort": "sort_tilts_by_angle", "remove": "remove_tilts", "split": "split_stack_even_odd", "flip": "flip_along_axes",
       "crop": "crop", "bin": "bin"}
@@ -72,13 +74,13 @@ NV = 4
 
 def plan(tier):
     if tier == "quick":
-        return dict(n_cases=300, shards=2, classes=CLASSES, timeout_s=600,
+        return dict(n_cases=375, shards=2, classes=CLASSES, timeout_s=600,
                     min_evals={"sort_tilts_by_angle": 2000, "remove_tilts": 2800, "split_stack_even_odd": 2000, "flip_along_axes": 3500,
-                               "crop": 3000, "bin": 2000, "params_unchanged": 5000, "file_replaced": 550, "output_file": 5000, "output_file_bin_int16_fractional": 150, "indices_load": 3800, "indices_load_direct": 3800, "same_result": 4500,
+                               "crop": 3000, "bin": 2000, "params_unchanged": 5000, "file_replaced": 700, "mutated_history": 1000, "output_file": 5000, "output_file_bin_int16_fractional": 150, "indices_load": 3800, "indices_load_direct": 3800, "same_result": 4500,
                                "interleave": 1000, "flip_twice": 800})
-    return dict(n_cases=8000, shards=16, classes=CLASSES, timeout_s=3000,
+    return dict(n_cases=10000, shards=16, classes=CLASSES, timeout_s=3000,
                 min_evals={"sort_tilts_by_angle": 55000, "remove_tilts": 60000, "split_stack_even_odd": 55000, "flip_along_axes": 95000,
-                           "crop": 60000, "bin": 55000, "params_unchanged": 150000, "file_replaced": 15000, "output_file": 150000, "output_file_bin_int16_fractional": 5000, "indices_load": 100000, "indices_load_direct": 100000, "same_result": 130000,
+                           "crop": 60000, "bin": 55000, "params_unchanged": 150000, "file_replaced": 19000, "mutated_history": 28000, "output_file": 150000, "output_file_bin_int16_fractional": 5000, "indices_load": 100000, "indices_load_direct": 100000, "same_result": 130000,
                            "interleave": 30000, "flip_twice": 23000})
 
 
@@ -278,7 +280,7 @@ def setup(ctx):
     f_crop = monitors.wrap(ctx, tiltstack, "crop", "crop", _post_crop, _app_crop)
     f_bin = monitors.wrap(ctx, tiltstack, "bin", "bin", _post_bin, _app_bin)
     f_idx = monitors.wrap(ctx, ioutils, "indices_load", "indices_load", _post_idx, _app_idx)
-    ctx.declare("output_file", "output_file_bin_int16_fractional", "same_result", "interleave", "flip_twice", "params_unchanged", "file_replaced", "indices_load_direct")
+    ctx.declare("output_file", "output_file_bin_int16_fractional", "same_result", "interleave", "flip_twice", "params_unchanged", "file_replaced", "indices_load_direct", "mutated_history")
     TS = tiltstack.TiltStack
     monitors.trace(ctx, [
         ("TiltStack.__init__", TS.__init__, {"load_file": "self.data = cryomap.read(tilt_stack, transpose=False)",
@@ -328,6 +330,36 @@ def _pixels(rng, cls, n, H, W, dtype):
         return a.astype(np.float32)
     scale = float(rng.choice([1.0, 100.0, 1e-3]))
     return (rng.normal(0, 1, shape) * scale + rng.normal(0, 3 * scale, (n, 1, 1))).astype(np.float32)
+
+
+F32_LIMITS = np.array([3.4028234663852886e38, 3.4028232635611926e38, 3.4028230607370965e38, -3.4028234663852886e38, 1.401298464324817e-45,
+                       -1.401298464324817e-45, 1e-40, 1.1754942106924411e-38, 1.1754943508222875e-38, 16777216.0, 16777215.0, 16777218.0,
+                       0.49999997, 2.4999998, 8388607.5, -0.0, 0.0, 100000.0, 100001.0, 2147483648.0, 1.0000001, 65504.0], dtype=np.float64)
+
+
+def _integer_mean_pixels(rng, n, H, W, b, dtype):
+    """stacks whose complete b x b blocks have exactly integral means, four kinds cycled over the tilts, both signs"""
+    out = np.empty((n, H, W), dtype=np.int64)
+    hb, wb = H // b, W // b
+    lim = max(1, 32767 // (b * b))
+    for t in range(n):
+        kind = ["constant", "block_constant", "adjusted", "multiples"][int(rng.integers(0, 4))] if t >= 4 else ["constant", "block_constant", "adjusted", "multiples"][(t + b) % 4]
+        if kind == "constant":
+            out[t] = int(rng.choice([1, -1, 3, -3, 7, -7, 255, -1000, 32767, -32768, int(rng.integers(-32768, 32768)), int(rng.integers(-40, 41))]))
+        elif kind == "multiples":
+            out[t] = rng.integers(-lim, lim + 1, (H, W)) * (b * b)
+        else:
+            img = rng.integers(-3000, 3001, (H, W))
+            if kind == "block_constant":
+                vals = rng.integers(-3000, 3001, (hb, wb))
+                img[:hb * b, :wb * b] = np.repeat(np.repeat(vals, b, axis=0), b, axis=1)
+            else:
+                for by in range(hb):
+                    for bx in range(wb):
+                        blk = img[by * b:(by + 1) * b, bx * b:(bx + 1) * b]
+                        blk[int(rng.integers(0, b)), int(rng.integers(0, b))] -= int(blk.sum()) % (b * b)
+            out[t] = img
+    return out.astype(np.int16).astype(dtype)
 
 
 def _angles(rng, cls, n):
@@ -386,7 +418,7 @@ def gen(ctx, i, cls):
     H = int(rng.integers(4, 41))
     W = int(rng.integers(4, 41))
     dtype = "float32" if rng.random() < 0.5 else "int16"
-    if cls in ("f32_random", "f32_extremes"):
+    if cls in ("f32_random", "f32_extremes", "f32_limits"):
         dtype = "float32"
     if cls in ("i16_random", "i16_extremes"):
         dtype = "int16"
@@ -400,8 +432,15 @@ def gen(ctx, i, cls):
         H, W = int(rng.integers(30, 41)), int(rng.integers(4, 6))
     elif cls == "odd_sizes":
         H, W = int(rng.integers(2, 20)) * 2 + 1, int(rng.integers(2, 20)) * 2 + 1
-    if cls == "square":
-        W = H
+    if cls == "pow2_sizes":                # block-boundary sizes 2**k - 1, 2**k, 2**k + 1 inside the quantifier
+        H, W = int(rng.choice([7, 8, 9, 15, 16, 17, 31, 32, 33])), int(rng.choice([7, 8, 9, 15, 16, 17, 31, 32, 33]))
+        n = int(rng.choice([2, 3, 4, 5, 7, 8, 9, 15, 16, 17, 25]))
+    elif cls == "max_sizes":               # the largest stack the quantifier allows (and one below on either image axis)
+        n, H, W = 25, int(rng.choice([40, 40, 39])), int(rng.choice([40, 40, 39]))
+    elif cls == "bin_integer_means":
+        H, W = int(rng.integers(12, 41)), int(rng.integers(12, 41))
+    if cls in ("square", "pow2_sizes", "max_sizes"):
+        W = H if cls == "square" else W
     elif H == W:
         W = W + 1 if W < 40 else W - 1
         if cls == "odd_sizes":
@@ -409,6 +448,14 @@ def gen(ctx, i, cls):
     if cls in ("remove_all_but_one", "remove_ends") and n < 3:
         n = 3
     nyx = _pixels(rng, cls, n, H, W, dtype)
+    if cls == "f32_limits":                # representability boundaries: must come back bit-for-bit (binning factor forced to 1 below)
+        nyx = rng.choice(F32_LIMITS, (n, H, W)).astype(np.float32)
+        nyx[:, 0, 0] = np.arange(n, dtype=np.float32) + np.float32(100000.0)          # adjacent integers just above 1e5 tell the tilts apart
+    elif cls == "duplicate_tilts":         # exact duplicates: some tilt images identical, one constant
+        for _ in range(int(rng.integers(1, 4))):
+            a_, b_ = (int(q) for q in rng.choice(n, 2, replace=False))
+            nyx[b_] = nyx[a_]
+        nyx[int(rng.integers(0, n))] = nyx.reshape(-1)[0]
     angles, akind = _angles(rng, cls, n)
     # index subset (0-based, in the order it will be handed over)
     k = int(rng.integers(1, n))
@@ -448,6 +495,13 @@ def gen(ctx, i, cls):
     b = max(1, min(b, mn))
     if cls in ("i16_random", "i16_extremes"):
         b = max(2, b)                      # random int16 pixels: block means are non-integral
+    if cls == "f32_limits":
+        b = 1                              # float32 max / subnormals: a sum over several pixels would overflow or lose them
+    if cls == "bin_integer_means":         # every factor is drawn (not only the small ones); exact integral block means
+        b = int(rng.integers(2, mn + 1)) if rng.random() < 0.7 else int(rng.choice([v for v in (7, 14, 27, 28, 29, 13, 11, 19, 23, 31, 37) if v <= mn]))
+        if rng.random() < 0.8:
+            dtype = "int16"
+        nyx = _integer_mean_pixels(rng, n, H, W, b, dtype)
     # configurations
     variants = {}
     for op in OPS:
@@ -477,10 +531,10 @@ def gen(ctx, i, cls):
                 if kk % 2 == 0:
                     num = str(rng.choice(["int", "npint", "str"]))
                 v["num"] = num
-        if op == "bin" and cls in ("i16_random", "i16_extremes"):
+        if op == "bin" and cls in ("i16_random", "i16_extremes", "bin_integer_means"):
             vs[0]["out_file"] = vs[1]["out_file"] = True       # written file of an int16 binning: array and file input
         variants[op] = vs
-    fmt = {"ang_style": str(rng.choice(["plain", "aligned", "crlf", "no_final_newline", "g"])),
+    fmt = {"ang_style": str(rng.choice(["plain", "aligned", "crlf", "no_final_newline", "g", "odd_tokens"])),
            "ang_ext": str(rng.choice([".tlt", ".rawtlt", ".txt", ".csv"])),
            "idx_style": str(rng.choice(["plain", "crlf", "no_final_newline", "aligned"])),
            "idx_ext": str(rng.choice([".txt", ".dat"])), "in_ext": str(rng.choice([".mrc", ".mrc", ".st", ".ali"])),
@@ -566,8 +620,23 @@ def _angles_input(ctx, case, v, k):
         return np.array(a, dtype=np.float32)
     p = _path(ctx, case, "angles%d%s" % (k, case["fmt"]["ang_ext"]))
     style = case["fmt"]["ang_style"]
-    _write_lines(p, [("%g" % x) if style == "g" else ("%.3f" % x) for x in a], style)
+    _write_lines(p, [("%g" % x) if style == "g" else (_odd_token(x, j) if style == "odd_tokens" else ("%.3f" % x)) for j, x in enumerate(a)], style)
     return p
+
+
+def _odd_token(x, j):
+    """valid but unusual spellings of a number with <= 3 decimals: +12.340, 1.234500E+01, -.250, 5., -6.012300e+01"""
+    s3 = "%.3f" % x
+    form = j % 5
+    if form == 0:
+        return s3 if s3.startswith("-") else "+" + s3
+    if form == 1:
+        return "%.6E" % x
+    if form == 2 and abs(x) < 1:
+        return s3.replace("0.", ".", 1)
+    if form == 3:
+        return s3.rstrip("0")
+    return "%.6e" % x
 
 
 def _indices_input(ctx, case, v, k):
@@ -696,10 +765,12 @@ def _same(case, op, r0, r1):
     return None
 
 
-def _judge_original(ctx, case, op, v, r, nyx=None, monitor=None):
+def _judge_original(ctx, case, op, v, r, nyx=None, monitor=None, params=None):
     """driver-side: the result against the selection computed from the ORIGINAL parameter values of the case (never from
-    the parameter objects, which the calls share)"""
+    the parameter objects, which the calls share); `params` overrides them with the values a history step holds NOW"""
     nyx = case["nyx"] if nyx is None else nyx
+    if params:
+        case = dict(case, **params)
     if op == "bin":
         w = orc.diff_binned(r[0], nyx, case["bin"])
     else:
@@ -717,6 +788,54 @@ def _judge_original(ctx, case, op, v, r, nyx=None, monitor=None):
         for got, e in zip(r, exp):
             w = w or orc.diff_exact(got, e)
     ctx.check(monitor or FN[op], w is None, w and dict(w, op=FN[op], judged="driver: against the original parameter values of the case", config=v))
+
+
+def _mutated_history(ctx, case, rng):
+    """three calls on caller-owned objects (stack array, angle array, index array, axes list) that are modified IN PLACE
+    between the calls: every call is judged against the values the objects hold at that moment (call monitors copy the
+    arguments at call time; the driver recomputes the selection from copies taken just before the call)"""
+    ts = ctx.ts
+    n = case["nyx"].shape[0]
+    o_in = orc.ORDERS[int(rng.integers(0, 2))]
+    S = np.array(orc.from_nyx(case["nyx"], o_in), order="C", copy=True)
+    ang = np.array(case["angles"], dtype=np.float64)
+    from1 = bool(rng.integers(0, 2))
+    idx = np.array(case["idx0"], dtype=np.int64 if rng.random() < 0.5 else np.int32) + (1 if from1 else 0)
+    axes = list(case["axes"])
+    for step in range(3):
+        op = str(rng.choice(["sort", "remove", "flip", "split", "crop", "bin"], p=[0.25, 0.25, 0.2, 0.1, 0.1, 0.1]))
+        o_out = orc.ORDERS[int(rng.integers(0, 2))]
+        now = {"angles": ang.copy(), "idx0": [int(q) - (1 if from1 else 0) for q in idx], "axes": list(axes)}
+        nyx_now = np.array(orc.to_nyx(S, o_in), copy=True)
+        kw = dict(input_order=o_in, output_order=o_out)
+        if op == "sort":
+            args = (S, ang)
+        elif op == "remove":
+            args = (S, idx)
+            kw["numbered_from_1"] = from1
+        elif op == "flip":
+            args = (S, axes)
+        elif op == "crop":
+            args = (S,)
+            kw.update(new_width=case["crop"][0], new_height=case["crop"][1])
+        elif op == "bin":
+            args = (S, int(case["bin"]))
+        else:
+            args = (S,)
+        ok, res = ctx.call(FN[op], getattr(ts, FN[op]), *args, **kw)
+        parts = res if op == "split" else (res,)
+        if ok and isinstance(parts, tuple) and all(isinstance(q, np.ndarray) and q.ndim == 3 for q in parts):
+            r = tuple(np.array(orc.to_nyx(q, o_out), copy=True) for q in parts)
+            _judge_original(ctx, case, op, {"step": step + 1, "op": FN[op], "input_order": o_in, "output_order": o_out,
+                                            "objects": "same stack / angle / index / axes objects as in the earlier steps, modified in place"},
+                            r, nyx=nyx_now, monitor="mutated_history", params=now)
+        # the caller now changes its own objects in place
+        S[...] = S[::-1, ::-1, ::-1].copy()
+        S.reshape(-1)[int(rng.integers(0, S.size))] = S.reshape(-1)[0]
+        ang[:] = ang[rng.permutation(n)]
+        idx[:] = rng.choice(n, len(idx), replace=False) + (1 if from1 else 0)
+        axes[:] = [str(q) for q in rng.choice(["x", "y", "z"], len(axes))]
+    _count(ctx, "mutated_history:cases")
 
 
 def _plain_call(ctx, case, op, stack, out_order, out_file=None):
@@ -846,6 +965,7 @@ def run_case(ctx, case):
                                                       second_output_order=o2))
     _file_replaced(ctx, case, rng)
     _indices_load_direct(ctx, case)
+    _mutated_history(ctx, case, rng)
     for f in os.listdir(ctx.scratch):
         if f.startswith("c%s_" % case["i"]):
             try:
@@ -921,3 +1041,16 @@ def extra(ctx):
                 ctx.call("bin", ts.bin, np.array(orc.from_nyx(nyx, o_in), order="C"), b, input_order=o_in, output_order=o_out)
                 cnt += 1
     ctx.extra["exhaustive: bin factor 1..min(H,W) on %d shapes x {float32, int16}" % len(shapes)] = cnt
+    # bin: every factor 1..40 on stacks whose complete blocks have exactly integral means (constant, block-constant, one pixel
+    # adjusted, multiples of b*b; both signs): an int16 result must EQUAL the mean there, returned array and written file
+    cnt = 0
+    for b in range(1, 41):
+        for (H, W) in [(40, 40), (max(4, b), min(40, max(4, b) + 1 + b % 3))] + ([(min(40, 2 * b + 1), max(4, b))] if big else []):
+            for dt in ("int16", "float32"):
+                for rep_ in range(2 if not big else 4):
+                    nyx = _integer_mean_pixels(rng, 6, H, W, b, dt)
+                    o_in, o_out = orc.ORDERS[(b + rep_) % 2], orc.ORDERS[(b // 2 + rep_) % 2]
+                    out = os.path.join(ctx.scratch, "sweep_bin_out.mrc") if (b + rep_) % 2 == 0 else None
+                    ctx.call("bin", ts.bin, np.array(orc.from_nyx(nyx, o_in), order="C"), b, input_order=o_in, output_order=o_out, output_file=out)
+                    cnt += 1
+    ctx.extra["exhaustive: bin factor 1..40, integral block means (4 kinds, +/-), {int16, float32}, file on/off"] = cnt
